@@ -162,6 +162,8 @@ func genC13(t *core.Tape, tier string) *Scenario {
 				}
 				q.ReqHeader = nil
 				q.ReqMsgs = [][]byte{tagged(t, q.ID, "req", 0)}
+				q.RespMsgs = [][]byte{tagged(t, q.ID, "resp", 0)}
+				q.RespHeader, q.RespTrailer, q.HErr = map[string][]string{"X-Owner": {q.ID}}, map[string][]string{"X-Owner-Trailer": {q.ID}}, nil
 				q.LiveCtx = false
 				p.ReuseRequestOf = q.ID
 				sc.Calls = append(sc.Calls, &q)
